@@ -257,6 +257,10 @@ class File:
             if t.k == "id" and t.v == "impl" and i + 2 < len(T) and T[i + 1].k == "id" and T[i + 1].v == type_name \
                     and T[i + 2].k == "p" and T[i + 2].v == "{":
                 e = match_close(T, i + 2)
+                # impl blocks of the verification hooks (#[cfg(rnacos_verif)]) are not part of the product
+                pre = [x.v for x in T[max(0, i - 7):i]]
+                if pre == ["#", "[", "cfg", "(", "rnacos_verif", ")", "]"]:
+                    continue
                 found.append(T[i + 3:e])
         if len(found) != 1:
             raise Refuse("%s: expected exactly one `impl %s {`, found %d" % (self.rel, type_name, len(found)))
